@@ -66,7 +66,7 @@ class Engine:
         self.on_budget = None
         self.fresh_logic = None
         self._fresh_model = None
-        self.path_t0 = time.time()
+        self.path_t0 = time.process_time()
 
     def fresh(self, name, sort="int"):
         self.fresh_n += 1
@@ -134,8 +134,8 @@ class Engine:
         else:
             if len(self.trace) >= self.max_decisions:
                 raise PathBudget("more than %d decisions on one path" % self.max_decisions)
-            if time.time() - self.path_t0 > self.path_wall_s:
-                raise PathBudget("path ran for more than %d s" % self.path_wall_s)
+            if time.process_time() - self.path_t0 > self.path_wall_s:
+                raise PathBudget("path used more than %d s of CPU" % self.path_wall_s)
             rt = self.check(c)
             rf = self.check(z3.Not(c))
             if rt == z3.unknown or rf == z3.unknown:
@@ -329,7 +329,7 @@ def _run_subtree(args):
             sys.setprofile(tracer)
         try:
             try:
-                _arm(e.path_wall_s)
+                _arm(4 * e.path_wall_s)      # wall-clock backstop for paths that block; the budget proper is CPU time (load-independent)
                 r = fn(e)
             finally:
                 _arm(0)
